@@ -67,6 +67,11 @@ theorem list_guards :
     guardsOf "List.PopBack" = ["if:l.len==0", "if:last!=&l.root"] ∧
     guardsOf "List.PopBackIfLonger" = ["if:l.len==0||l.len<=min", "if:last==&l.root"] ∧
     guardsOf "List.NodeSlice" = ["for:node!=&l.root"] := by decide
+/-- the worker asks the strategy and nothing else: `queueManager.next` has no branch of its own besides the switch on the
+    strategy, and calls exactly the three selection functions of the Manager model -/
+theorem qm_next_is_the_strategy :
+    guardsOf "queueManager.next" = [] ∧
+    callsOf "queueManager.next" = ["GetRoundRobinItem", "GetMaxLenItem", "GetMinLenItem"] := by decide
 theorem manager_guards :
     guardsOf "Manager.GetRoundRobinItem" = ["if:len(m.items)==0", "if:item.Len()>0", "if:m.roundRobinIndex==start"] ∧
     guardsOf "Manager.GetMaxLenItem" = ["if:len(m.items)==0", "if:maxItem.Len()==0"] ∧
